@@ -202,7 +202,7 @@ impl Response {
 
     #[must_use]
     pub fn forbidden_403() -> Self {
-        Response::new(401)
+        Response::new(403)
     }
 
     #[must_use]
